@@ -17,6 +17,10 @@ SCRIPT = (
     "def boom(x):\n    raise Exception('remote failure %s' % (x,))\n"
     "def kw(a=1, b=2):\n    return [a, b]\n"
     "def chatty(x):\n    from mo_logs import logger\n    logger.info('hello {x}', x=1)\n    return x\n"
+    # a backlog of log lines for the worker's logging thread, then an answer much longer than the pipe buffer: the answer's write
+    # sleeps in the kernel while the logging thread writes to the same pipe
+    "def noisy(n, lines):\n    import time\n    from mo_logs import logger\n    logger.info('first line')\n    time.sleep(0.05)\n"
+    "    for i in range(lines):\n        logger.info('backlog line {i}', i=i)\n    time.sleep(0.26)\n    return 'x' * n\n"
 )
 
 FALSY = [0, False, None, [], {}, 0.5, "", [None], [[]], [{}], {"a": []}, {"a": 0}, {"a": False}]
@@ -135,6 +139,19 @@ def main(seed, ncalls):
         return box["r"]
 
     try:
+        for k in range(2):
+            n = 1500000 + k
+            bump("noisy")
+            out["cases"] += 1
+            try:
+                r = with_deadline(lambda: p.noisy(n, 1500), "noisy(%d, 1500): a 1.5 MB answer while the worker's logging thread flushes 1500 lines" % n, 30)
+                if not (isinstance(r, str) and r == "x" * n):
+                    out["viol"].append("C19: noisy(%d, 1500) returned %s of length %s instead of %d times 'x'"
+                                       % (n, type(r).__name__, len(r) if isinstance(r, str) else "-", n))
+            except SystemExit:
+                raise
+            except Exception as e:   # noqa
+                out["viol"].append("C19: noisy(%d, 1500) raised: %s" % (n, str(e).replace("\n", " ")[-200:]))
         for i in range(ncalls):
             v = gen_value(rng)
             kind = rng.choice(["ident", "ident", "setget", "kw", "boom", "chatty", "execget"])
